@@ -664,6 +664,26 @@ def r06_20(chk):
     chk.floor("R06.20", 1, "bytes FASTA parser")
 
 
+def r06_21(chk):
+    chk.rule("R06.21", "a format whose header states ONE sequence length (PHYLIP, PAML: 'n  length') can only hold sequences of that length: its formatter compares the lengths of all the sequences it is given (and refuses a ragged collection) before it writes that header -- written from the first sequence's length alone, a longer sequence is silently cut (PHYLIP) or the file cannot be read back (PAML)")
+    n = 0
+    for rel, q in (("format/phylip.py", "PhylipFormatter.format"), ("format/paml.py", "PamlFormatter.format")):
+        m = chk.repo.module(rel)
+        fn = m.func(q)
+        header_len = any(isinstance(x, ast.Attribute) and x.attr == "align_length" for x in ast.walk(fn))
+        if not header_len:
+            chk.ok("R06.21", key(m, q, "lengths compared before the header is written"), m.loc(fn), "the header does not state a single length", nontrivial=False)
+            continue
+        n += 1
+        guards = []
+        for i in walk_no_nested(fn):
+            if isinstance(i, ast.If) and any(isinstance(x, ast.Raise) for x in ast.walk(i)) and "len(" in norm(i.test) or (isinstance(i, ast.If) and any(isinstance(x, ast.Raise) for x in ast.walk(i)) and any(isinstance(nm, ast.Name) and nm.id in {st.targets[0].id for st in walk_no_nested(fn) if isinstance(st, ast.Assign) and isinstance(st.targets[0], ast.Name) and "len(" in norm(st.value)} for nm in ast.walk(i.test))):
+                guards.append(i)
+        helper = [c for c in walk_no_nested(fn) if isinstance(c, ast.Call) and (call_name(c) or "").split(".")[-1] in ("_check_same_length", "check_same_length", "assert_same_length")]
+        chk.decide(bool(guards) or bool(helper), "R06.21", key(m, q, "lengths compared before the header is written"), m.loc(guards[0] if guards else fn), "a ragged collection is refused", f"{q} writes the header length from the first sequence and never looks at the others: make_unaligned_seqs({{'s1':'ACGT','s2':'ACGTACGT'}}).write('x.phylip') silently stores s2 as ACGT; written as .paml the file cannot be loaded")
+    chk.floor("R06.21", 2, "PHYLIP and PAML formatters")
+
+
 def r06_9(chk):
     chk.rule("R06.9", "GenBank bytes parser: records are split on the line-anchored terminator b'\\n//'; because that separator begins with the newline of the previous line, every later piece starts with a newline -- the piece is left-trimmed before its first line (LOCUS) is taken, and the guard that skips the piece after the last terminator also covers the empty piece (`not piece`, not just piece.isspace())")
     from ..cfg import build
@@ -752,6 +772,7 @@ def r06_11(chk):
 
 
 def run(chk):
+    r06_21(chk)
     r06_20(chk)
     r06_19(chk)
     r06_18(chk)
